@@ -8,6 +8,7 @@ import (
 	"testing"
 
 	"github.com/Fantom-foundation/lachesis-base/abft"
+	"github.com/Fantom-foundation/lachesis-base/abft/election"
 	"github.com/Fantom-foundation/lachesis-base/hash"
 	"github.com/Fantom-foundation/lachesis-base/inter/dag"
 	"github.com/Fantom-foundation/lachesis-base/inter/idx"
@@ -71,9 +72,56 @@ func TestC33Roots(t *testing.T) {
 		cachedThenAppended, evictedQueried, queries, adds, switches, bigFrames := 0, 0, 0, 0, 0, 0
 		queriedOnce := map[idx.Frame]bool{}
 		var log []string
+		// Results of earlier GetFrameRoots calls the caller still holds: the returned slice itself, the frame it was asked
+		// for and a private copy of what it showed when it was returned (that content was compared with the model then).
+		// A returned list is the caller's: whatever the store does later (other queries, registrations, epoch switches),
+		// its first len() elements must stay what they were. Only len() is looked at, never the capacity: the store may
+		// return its cached slice and later append roots of the same frame behind the returned length.
+		type heldResult struct {
+			frame idx.Frame
+			got   []election.RootAndSlot
+			want  []election.RootAndSlot
+			at    int // len(log) when it was returned
+		}
+		var recent [4]*heldResult // the last four results
+		var old [4]*heldResult    // every 5th result, kept much longer
+		heldChecks, heldNonEmpty := 0, 0
+		verifyHeld := func(after string) {
+			for _, ring := range [][4]*heldResult{recent, old} {
+				for _, h := range ring {
+					if h == nil {
+						continue
+					}
+					heldChecks++
+					if len(h.got) != len(h.want) {
+						t.Fatalf("internal: held slice changed its length")
+					}
+					for i := range h.want {
+						if h.got[i] != h.want[i] {
+							t.Fatalf("the list returned earlier by GetFrameRoots(%d) (after history step %d, %d roots) was changed behind the caller's back %s: element %d was (frame %d, creator %d, %s), now is (frame %d, creator %d, %s)\ncache RootsNum=%d RootsFrames=%d history: %v",
+								h.frame, h.at, len(h.want), after, i,
+								h.want[i].Slot.Frame, h.want[i].Slot.Validator, h.want[i].ID.String(),
+								h.got[i].Slot.Frame, h.got[i].Slot.Validator, h.got[i].ID.String(),
+								rootsNum, rootsFrames, log)
+						}
+					}
+				}
+			}
+		}
+		hold := func(f idx.Frame, got []election.RootAndSlot) {
+			h := &heldResult{frame: f, got: got, want: append([]election.RootAndSlot(nil), got...), at: len(log)}
+			if len(got) > 0 {
+				heldNonEmpty++
+			}
+			recent[queries%len(recent)] = h
+			if queries%5 == 0 {
+				old[(queries/5)%len(old)] = h
+			}
+		}
 		check := func(f idx.Frame) {
 			got := store.GetFrameRoots(f)
 			queries++
+			verifyHeld(fmt.Sprintf("by GetFrameRoots(%d)", f))
 			want := model[f]
 			seen := map[rootKey]bool{}
 			for _, r := range got {
@@ -104,6 +152,7 @@ func TestC33Roots(t *testing.T) {
 			if len(crits) > 0 {
 				t.Fatalf("crit: %v", crits)
 			}
+			hold(f, got)
 		}
 		t.Repeat(map[string]func(*rapid.T){
 			"addRoot": func(t *rapid.T) {
@@ -135,6 +184,7 @@ func TestC33Roots(t *testing.T) {
 					}
 				}
 				log = append(log, fmt.Sprintf("AddRoot(spf=%d, frame=%d, creator=%d, id=%s)", spf, frame, creator, me.ID().String()))
+				verifyHeld("by AddRoot")
 			},
 			"addManyRoots": func(t *rapid.T) {
 				// a frame with very many roots (many validators and forks): up to 130 registrations in a row, the
@@ -166,6 +216,7 @@ func TestC33Roots(t *testing.T) {
 					if queriedOnce[f] {
 						cachedThenAppended++
 					}
+					verifyHeld("by AddRoot")
 					if i == queryAt {
 						check(f)
 						queriedOnce[f] = true
@@ -202,6 +253,7 @@ func TestC33Roots(t *testing.T) {
 					t.Fatalf("Reset: %v", err)
 				}
 				switches++
+				verifyHeld("by the epoch switch")
 				model = map[idx.Frame]map[rootKey]bool{}
 				queriedOnce = map[idx.Frame]bool{}
 				for f := idx.Frame(0); f <= 11; f++ {
@@ -230,6 +282,8 @@ func TestC33Roots(t *testing.T) {
 		st.Case(stats.Hash(log, rootsNum, rootsFrames), cachedThenAppended > 0 || evictedQueried > 0, classes...)
 		st.Class("queries", int64(queries))
 		st.Class("adds", int64(adds))
+		st.Class("held_result_rechecks", int64(heldChecks))
+		st.Class("held_nonempty_results", int64(heldNonEmpty))
 		st.Sample(func() interface{} {
 			l := log
 			if len(l) > 30 {
